@@ -512,11 +512,14 @@ PROPS["C11"] = dict(
                 "function of its own state and the events routed to it (the Recv / Send models take no other input), so isolation of behaviour reduces to isolation of routing. "
                 "Checked on the real daemons (oracles, not theorems): 2-6 concurrent transfers in both directions and mixed modes each deliver their own file to their own "
                 "destination and report their own outcome (own_file), ids distinct (distinct_ids), daemons still running after stray / replayed PDUs (daemon_alive), a receive "
-                "transaction started by a stray ends by its own limits (daemon_bounded)."),
+                "transaction started by a stray ends by its own limits (daemon_bounded); with nothing lost on the link every transaction reports exactly one, successful outcome "
+                "whatever strays arrive, including PDUs of foreign entities whose sequence number collides with a live transaction (others_unaffected). Correspondence: the key "
+                "forward_pdu computed for every PDU it routed (hook trace, cfg cfdp_verif) equals the model's key, and the set of receive transactions spawned equals the model's."),
     level_note=DAEMON_NOTE,
     rule=("daemon engine: 15 (quick) / 150 (thorough) scenarios with 2-6 overlapping transactions (both directions, acknowledged / unacknowledged, files of 0 .. 6 segments with "
-          "distinct contents) plus 1-4 injected strays each: a Finished PDU for a sender that does not exist, a PDU naming entity 77 (no transport), a file-data or EOF PDU "
-          "with a fresh id that legitimately starts a receive transaction nobody continues. Non-trivial = a routing line with at least one delivered PDU."),
+          "distinct contents; EOF / Finished / ACK PDUs delivered up to 700 ms late so that transactions overlap the strays) plus 2-6 injected strays each: a Finished PDU for a "
+          "sender that does not exist, a PDU naming entity 77 (no transport), a file-data or EOF PDU with a fresh id that legitimately starts a receive transaction nobody "
+          "continues, and responses / data / cancelling EOFs of foreign entities 3 and 77 carrying the sequence number of a live transaction. Non-trivial = a routing line with at least one delivered PDU."),
     assumptions=["transaction tasks share nothing but the filestore and the channels to the daemon (Rust ownership: each task owns its transaction value)"],
     unproved=["that the real tasks do not interfere through the shared filestore or channel back-pressure is an oracle (own_file, daemon_bounded), not a theorem"],
 )
